@@ -101,7 +101,13 @@ def gen_cases(tier, seed, behs):
                 feed = feed[:1]
             if rng.random() < 0.6:      # a heartbeat / boot-up handled while nobody is waiting
                 ops.append({"op": "hb", "byte": rng.choice([0, 5, 127, 4])})
-            ops.append({"op": "wait", "kind": kind, "feed": feed, "timeout": 0.15 if not feed or (kind == "boot" and 0 not in [f % 128 for f in feed]) else 5})
+            w = {"op": "wait", "kind": kind, "feed": feed, "timeout": 0.15 if not feed or (kind == "boot" and 0 not in [f % 128 for f in feed]) else 5}
+            if kind == "boot" and rng.random() < 0.5:
+                # ordinary heartbeats keep coming, the boot-up message only after the deadline
+                w["feed"] = [rng.choice([5, 127, 4, 0x85]) for _ in range(rng.randrange(1, 3))] + [rng.choice([5, 127]), 0]
+                w["late_from"] = len(w["feed"]) - 2
+                w["timeout"] = 5
+            ops.append(w)
             ops.append({"op": "cmd", "who": "master", "code": rng.choice([1, 2, 128])})
         cases.append({"nid": 5, "ops": ops, "src": "wait"})
     return cases
